@@ -912,6 +912,18 @@ class Interp:
                     idx = n if isinstance(n, int) else vdef[2].index(n)
                     out[idx] = v
                 return Agg(self.enum_tag(e), vi, out)
+        if len(names) == 1 and last not in self.layouts.structs:
+            # a variant imported by name (`use ..::ProgramPayload::*` prints as `VmProgram(move _1)`): unique owner enum
+            owners = self.layouts.find_enum_by_variant(last)
+            if len(owners) == 1:
+                e = owners[0]
+                vi = e.variant_index(last)
+                vdef = e.variants[vi]
+                out = [UNINIT] * vdef[3]
+                for n, v in vals:
+                    idx = n if isinstance(n, int) else vdef[2].index(n)
+                    out[idx] = v
+                return Agg(self.enum_tag(e), vi, out)
         fnames = [n for n, _ in vals]
         if fnames and all(isinstance(n, str) for n in fnames):
             sd = self.layouts.find_struct(last, fnames, hint=names[-2] if len(names) >= 2 else None)
